@@ -47,4 +47,64 @@ theorem C19_neg_leak_starves :
     run afterGetOnly ⟨2, 0, 0⟩ [.issue, .finish .getFailed, .issue, .finish .getFailed] = some ⟨2, 2, 0⟩ ∧
     step afterGetOnly ⟨2, 2, 0⟩ .issue = none := by decide
 
+/-! ## Bounded concurrency and progress -/
+
+theorem step_bound (rel : Outcome → Bool) (s s' : St) (e : Ev) (h : step rel s e = some s')
+    (hb : s.used ≤ s.cap) : s'.used ≤ s'.cap ∧ s'.cap = s.cap := by
+  cases e with
+  | issue =>
+    simp only [step] at h
+    split at h
+    · cases h; exact ⟨by simp; omega, rfl⟩
+    · cases h
+  | finish o =>
+    simp only [step] at h
+    split at h
+    · cases h
+    · cases h; refine ⟨?_, rfl⟩; simp only; split <;> omega
+
+/-- **bounded read concurrency**: whatever the history and whatever the release discipline, never
+    more slots are taken than the WAL's `maxConcurrency` — so with the code's discipline
+    (`C19_slots_exact`) never more than `cap` reads are in flight -/
+theorem C19_slots_bounded (rel : Outcome → Bool) (evs : List Ev) :
+    ∀ s : St, s.used ≤ s.cap → ∀ s', run rel s evs = some s' → s'.used ≤ s'.cap ∧ s'.cap = s.cap := by
+  induction evs with
+  | nil => intro s h s' hr; simp only [run] at hr; cases hr; exact ⟨h, rfl⟩
+  | cons e es ih =>
+    intro s h s' hr
+    simp only [run] at hr
+    split at hr
+    · cases hr
+    · rename_i s1 hs1
+      obtain ⟨b1, c1⟩ := step_bound rel s s1 e hs1 h
+      obtain ⟨b2, c2⟩ := ih s1 b1 s' hr
+      exact ⟨b2, c2.trans c1⟩
+
+theorem C19_reads_in_flight_bounded (evs : List Ev) (cap : Nat) (s' : St)
+    (hr : run always ⟨cap, 0, 0⟩ evs = some s') : s'.running ≤ cap := by
+  have h1 := C19_slots_exact evs ⟨cap, 0, 0⟩ rfl s' hr
+  obtain ⟨h2, h3⟩ := C19_slots_bounded always evs ⟨cap, 0, 0⟩ (Nat.zero_le _) s' hr
+  simp only at h3
+  omega
+
+/-- **no deadlock**: in every state the code can reach, either a new read can be issued or a read
+    is in flight whose end (with any outcome) is accepted — the issuer never waits for a slot that
+    no running read will give back -/
+theorem C19_slots_progress (s : St) (hcap : 0 < s.cap) (hinv : s.used = s.running) :
+    (step always s .issue).isSome = true ∨ ∀ o, (step always s (.finish o)).isSome = true := by
+  by_cases h : s.used < s.cap
+  · left; simp [step, h]
+  · right; intro o
+    have : s.running ≠ 0 := by omega
+    simp [step, this]
+
+/-- the leaking variant reaches a state where neither is possible -/
+theorem C19_neg_leak_deadlock :
+    (step afterGetOnly ⟨2, 2, 0⟩ .issue).isSome = false ∧
+    ∀ o, (step afterGetOnly ⟨2, 2, 0⟩ (.finish o)).isSome = false := by
+  refine ⟨by decide, ?_⟩
+  intro o; cases o <;> decide
+
+example : run always ⟨2, 0, 0⟩ [.issue, .issue, .finish .getFailed, .issue] = some ⟨2, 2, 2⟩ := by decide
+
 end WalSlots
